@@ -106,9 +106,73 @@ class CoreGen(progs.ProgGen):
             return self.num() + " "
         return self.structure(d, True, pure)
 
+    # -- targeted shapes ------------------------------------------------------------------------
+    def counting_while(self, pure):
+        """a terminating while loop whose CONDITION reads the context value: a counter on the stack is
+        compared with `n` and incremented in the body (so the condition is re-evaluated after completed
+        iterations, inside whatever binds `n` around it)"""
+        r = self.rng
+        cond = r.choice([":n<", ":n<", "n:$>", ":n=¬", ":n‹<"])
+        mid = r.choice(["", "", ":,", "n_", "λ›;†‹", "!_"]) if not pure else r.choice(["", "", "n_", "λ›;†‹", "!_"])
+        return r.choice(["0", "0", "1"]) + "{" + cond + "|" + mid + "›}"
+
+    def context_while(self, d, pure):
+        """the counting while inside something that binds `n` to an integer: for loop, map / filter lambda, lambda call"""
+        r = self.rng
+        w = self.counting_while(pure)
+        k = r.randrange(6)
+        tail = "" if pure else r.choice(["", ",", ",", "…"])
+        if k == 0:
+            return r.choice(["3", "4", "2"]) + "(" + w + tail + ")"
+        if k == 1:
+            return r.choice(["⟨2|4⟩", "⟨3|1|2⟩", "3 "]) + "ƛ" + self.counting_while(True) + ";"
+        if k == 2:
+            return r.choice(["3 ", "5 "]) + "λ" + w + ";†"
+        if k == 3:
+            return r.choice(["3", "2"]) + "(" + r.choice(["2", "3"]) + "(" + w + tail + "))"
+        if k == 4:
+            return r.choice(["4 ", "⟨1|3⟩"]) + "'" + self.counting_while(True) + "2<;"
+        return r.choice(["3", "4"]) + "(n " + "λ" + w + ";†" + tail + ")"
+
+    def dropping_lambda(self, pure, arity=None):
+        """an explicit-arity lambda whose body really removes / consumes values of its own stack"""
+        r = self.rng
+        a = arity if arity is not None else r.choice([1, 2, 2, 2, 3])
+        bodies = ["_", "_", "+_", "$_", "__", "_λ›;†", "λ_;†", "W", "_!", "+", "-", "$", "_n", "", ":_+"]
+        if not pure:
+            bodies += ["_,", ",", "_£¥"]
+        return "λ" + str(a) + "|" + r.choice(bodies) + ";"
+
+    def modified_lambda(self, d, pure):
+        """every modifier on explicit-arity lambdas, with enough operands below"""
+        r = self.rng
+        m = r.choice(MOD1 + MOD2 + ["~", "~", "&"])
+        if pure and m == "&":
+            m = "~"
+        lazy = m in "vɖ"
+        operands = "".join(r.choice(["4 ", "3 ", "7 ", "1 ", "n ", "⟨1|2|3⟩", "12 "]) for _ in range(r.randrange(2, 5)))
+        if m in MOD2:
+            body = m + self.dropping_lambda(pure) + self.dropping_lambda(pure)
+        elif m in "ƒɖ":
+            body = m + self.dropping_lambda(True, 2)
+        else:
+            body = m + self.dropping_lambda(pure or lazy)
+        out = operands + body
+        k = r.randrange(4)
+        tail = "" if pure else r.choice([",", "W,", ""])
+        if k == 0:
+            return r.choice(["3", "2"]) + "(" + out + tail + ")"
+        if k == 1 and not pure:
+            return out + "W"
+        return out
+
     def item(self, d, indef, pure):
         r = self.rng
         x = r.random()
+        if d > 0 and x < 0.05:
+            return self.context_while(d, pure)
+        if d > 0 and x < 0.11:
+            return self.modified_lambda(d, pure)
         if d <= 0 or x < 0.62:
             return self.atom(indef, pure)
         if x < 0.90:
@@ -223,6 +287,9 @@ SEEDS = [
     "@f:p|←p λ5;† +;4@f;", "@f:p|n ←p;4@f;W", "@f:p|;4@f;W", "@f:p|?;4@f;", "@f:p|_ _;4@f;W", "⟨3|1|2⟩µN;", "⟨3|1|2⟩µ;", "312µ;", "⟨3|1|2⟩µ,0;",
     "⟨⟨3⟩|⟨1|5⟩|⟨2⟩⟩µL;", "⟨3|1|2⟩ λN; ṡ", "⟨3|1|2⟩ λ2<; ṡ",
     "3 {:|n,‹}", "5 {:2>|n,‹}", "2 {:|n 2(n,)_‹}", "3 {:|λn;†,‹}", "2{:|⟨n|n⟩,‹}",
+    "3(0{:n<|›},)", "⟨2|4⟩ƛ0{:n<|›};", "3 λ0{:n<|›};†", "2(3(0{:n<|:,›}))", "4 '0{:n<|›}2<;", "3(n λ0{:n<|›};†,)", "3(1{:n=¬|›},)",
+    "4 3 ~λ2|_;", "4 3 ~λ2|+_;", "3(4 n ~λ2|_;,)", "4 3 ~λ2|$_;", "1 2 3 ~λ3|__;", "4 3 ~λ2|_λ›;†;", "4 3 &λ2|_;¥", "4 3 ₌λ2|_;λ2|+_;", "4 3 ₍λ2|_;λ1|_;",
+    "⟨1|2|3⟩ 5 vλ2|_;", "⟨1|2|3⟩ ƒλ2|_;", "⟨1|2|3⟩ ɖλ2|$_;", "1 4 3 ßλ2|_;", "⟨4|5⟩ ~λ1|_;", "4 3 ~λ2|W;", "4 3 ~λ2|;",
     "10 λ2|n;†", "1 2 λ2|n W;†", "3 4 @f:2|n;@f;", "@f:2|!;1@f;", "@f:0|n;@f;", "λ0|!;†", "3 λ0|?;†", "⟨?|?⟩", "5 ƛ⟨n|n⟩;",
 ]
 
@@ -476,6 +543,12 @@ def run(env):
                 "by (program, inputs, flag).")
     import time
     V.import_repo()
+    if not env.coq_ok:
+        # the property file did not build (e.g. the template obligation C01_templates broke): the models themselves
+        # are still needed for the search of a concrete failing program
+        with V._Lock("coq.lock"):
+            ok, out = V.coq_make(["Model/Machine.vo", "Model/RefSem.vo"])
+        env.note("models_rebuilt_after_failed_property_build", ok)
     t_start = time.time()
     items, generated = build_items(env)
     res = hard_pmap(impl_run, items, soft=env.budget(3, 4), hard=env.budget(9, 12), procs=min(V.NPROC, 10))
@@ -513,6 +586,8 @@ def run(env):
     codes, logs = coq_codes(env.prop, "run", cases, shard=env.budget(60, 80), timeout=env.budget(45, 70))
     heavy = []
     for lo, hi, log in logs:
+        if "[timeout]" not in log:
+            continue                      # a shard that failed for another reason (stale objects, ...) is not retried
         # the model is eager where the implementation is lazy: a value that grows exponentially but is never
         # forced starves its shard.  Re-evaluate such a shard case by case under a short limit; what still does
         # not finish is skipped and counted
@@ -521,6 +596,7 @@ def run(env):
         heavy += [cases[lo + a][0] for a, b, _ in sublogs]
     t_coq = time.time()
     dist = {}
+    differing = {}
     flags_seen = {}
     constructs = {}
     nontrivial = []
@@ -539,6 +615,8 @@ def run(env):
             env.disagree("machine (Model/Machine.v) vs implementation", inp, "(model outcome differs; evaluate run_machine in Coq)", obs)
         elif m == 4:
             env.disagree("machine entered a function whose body is outside the core", inp, "ENotCore", obs)
+        if m == 1 or r == 1:
+            differing[src] = differing.get(src, 0) + 1
         if r == 1:
             env.fail(inp, "the implementation does not do what the documented structure semantics (Model/RefSem.v) says: final stack / stdout / "
                           f"error differ; observed {obs}", cls=None)
@@ -561,6 +639,10 @@ def run(env):
     env.note("runs", {"total": len(items), "compared": len(cases), "skipped": skipped, "coq_unevaluated": unevaluated})
     env.note("phase_seconds", {"implementation_runs": round(t_impl - t_start, 1), "coq_evaluation": round(t_coq - t_impl, 1),
                                "text_tie": round(time.time() - t_coq, 1)})
+    seedset = set(SEEDS)
+    env.note("differing_programs", {"runs": sum(differing.values()), "distinct_programs": len(differing),
+                                     "of_them_generated": sum(1 for s in differing if s not in seedset),
+                                     "generated_examples": [s for s in differing if s not in seedset][:8]})
     env.note("outcomes", dist)
     env.note("agreeing_runs_per_flag_set", flags_seen)
     env.note("agreeing_runs_per_construct", constructs)
